@@ -82,6 +82,14 @@ class C10(Check):
         def V(law, cls, key, detail):
             res['violations'].append({'law': law, 'cls': cls, 'key': key, 'detail': detail})
         net = models.RefNet(spec)
+        if cfg.get('emulate') == 'tau_first' and cfg['vectorize']:
+            # defect model of KF-C10-vectorized-tau-first-element: every instance of a vectorized delayed operator uses
+            # the delay of the first declared instance (its own component of the history)
+            first = {}
+            for (n_, o_), i_ in net.inst.items():
+                if i_['lib'] in ('dd', 'ddt'):
+                    first.setdefault(o_, i_['p']['tau'])
+                    i_['p']['tau'] = first[o_]
         names = net.state_names
         libs = {i['lib'] for i in net.inst.values()}
         if 'dd' in libs:
@@ -394,7 +402,11 @@ class C10(Check):
         def ab_vec(t):
             t['cfg']['vectorize'] = False
             return t
-        return [KF('KF-C10-vectorized-tau-first-element', vec_tau, ab_vec)]
+
+        def explain(t):
+            t['cfg']['emulate'] = 'tau_first'
+            return t
+        return [KF('KF-C10-vectorized-tau-first-element', vec_tau, ab_vec, explain=explain)]
 
 
 CHECK = C10()
